@@ -147,7 +147,11 @@ Definition pattach : parser attach_op :=
 
 Definition pop : parser op :=
   c <~ pbyte ;;
-  args <~ plist pstr ;; pret (OpParse args).
+  match c with
+  | 80 => (args <~ plist pstr ;; pret (OpParse args))                (* P *)
+  | 73 => (t <~ pstr ;; d <~ pbool ;; pret (OpIni t d))              (* I *)
+  | _ => (n <~ pN ;; pret (OpWriteIni n))                            (* W *)
+  end.
 
 Definition phandler : parser handler_kind :=
   c <~ pbyte ;;
